@@ -275,8 +275,20 @@ if __name__ == "__main__":
         rc = main()
     except SystemExit:
         raise
-    except BaseException as e:  # never let a traceback look like a violation
-        print("ANALYSIS-ERROR internal: %s: %s" % (type(e).__name__, e))
+    except BrokenPipeError:
         rc = 2
-    sys.stdout.flush()
-    sys.exit(rc)
+        try:
+            sys.stdout = open(os.devnull, "w")
+        except Exception:
+            pass
+    except BaseException as e:  # never let a traceback look like a violation
+        try:
+            print("ANALYSIS-ERROR internal: %s: %s" % (type(e).__name__, e))
+        except Exception:
+            pass
+        rc = 2
+    try:
+        sys.stdout.flush()
+    except Exception:
+        pass
+    os._exit(rc) if rc is None else sys.exit(rc)
